@@ -17,6 +17,8 @@ fn main() {
     let mut out = util::open_out(arg(&args, "--out"));
     match args[1].as_str() {
         "c01" => chacha::drive_c01(&mut *out, seed, thorough),
+        "stream-script" => chacha::run_script(&mut *out, arg(&args, "--script").expect("--script"), seed, true),
+        "stream-rand" => chacha::drive_histories(&mut *out, seed, thorough, true),
         d => {
             eprintln!("unknown driver {}", d);
             std::process::exit(2);
